@@ -20,9 +20,13 @@ def parse(s):
     def skip():
         nonlocal pos
         while pos < n and s[pos] in ' \n\t': pos += 1
+    steps = 0
     def value():
-        nonlocal pos
+        nonlocal pos, steps
         skip()
+        # a malformed text must end the parse, not loop: every call consumes at least one character
+        steps += 1
+        if steps > 2 * n + 10: raise ValueError('malformed Debug text (no progress at %d): %r' % (pos, s[max(0, pos - 30):pos + 30]))
         c = s[pos]
         if c == '[':
             pos += 1; items = []
